@@ -202,3 +202,62 @@ def case_nondeterministic():
 
 
 CASES["nondeterministic"] = case_nondeterministic
+
+
+def case_batchnorm():
+    """BatchNormalization fused into Gemm / Conv, over attribute variants of the inbound node."""
+    import itertools
+    import onnxscript.rewriter as rw
+    from onnxscript.rewriter.rules.common import _fuse_batchnorm as fb
+    rng = np.random.default_rng(0)
+    bad = 0
+
+    def bn_inits(c):
+        g, b, m = [rng.normal(size=(c,)).astype(np.float32) for _ in range(3)]
+        v = rng.uniform(0.5, 1.5, size=(c,)).astype(np.float32)
+        return [numpy_helper.from_array(a, n) for a, n in [(g, "g"), (b, "b"), (m, "m"), (v, "v")]]
+    for beta, alpha, transB, has_bias, eps in itertools.product([None, 0.5, 0.0], [None, 2.0], [0, 1], [True, False], [None, 0.1]):
+        Wm = rng.normal(size=((4, 3) if transB else (3, 4))).astype(np.float32)
+        Bv = rng.normal(size=(4,)).astype(np.float32)
+        attrs = {k: v for k, v in (("beta", beta), ("alpha", alpha)) if v is not None}
+        if transB:
+            attrs["transB"] = 1
+        bn_attrs = {} if eps is None else {"epsilon": eps}
+        inits = [numpy_helper.from_array(Wm, "W")] + ([numpy_helper.from_array(Bv, "B")] if has_bias else []) + bn_inits(4)
+        g = helper.make_graph([
+            helper.make_node("Gemm", ["x", "W"] + (["B"] if has_bias else []), ["y"], **attrs),
+            helper.make_node("BatchNormalization", ["y", "g", "b", "m", "v"], ["z"], **bn_attrs),
+        ], "g", [vi("x", TensorProto.FLOAT, [2, 3])], [vi("z", TensorProto.FLOAT, [2, 4])], inits)
+        m = helper.make_model(g, opset_imports=[helper.make_opsetid("", 18)], ir_version=9)
+        onnx.checker.check_model(m)
+        x = rng.normal(size=(2, 3)).astype(np.float32)
+        before = run(m, {"x": x})[0]
+        new = rw.rewrite(m, pattern_rewrite_rules=fb.rules)
+        after = run(new, {"x": x})[0]
+        err = float(np.abs(before - after).max())
+        if err > 1e-4:
+            print(f"BatchNormalization(Gemm(x, W{', B' if has_bias else ''}; {attrs}); {bn_attrs}) -> {[n.op_type for n in new.graph.node]}: max |difference| = {err:.4f}")
+            bad += 1
+    for has_bias, eps in itertools.product([True, False], [None, 0.1]):
+        Wc = rng.normal(size=(4, 3, 2, 2)).astype(np.float32)
+        Bv = rng.normal(size=(4,)).astype(np.float32)
+        bn_attrs = {} if eps is None else {"epsilon": eps}
+        inits = [numpy_helper.from_array(Wc, "W")] + ([numpy_helper.from_array(Bv, "B")] if has_bias else []) + bn_inits(4)
+        g = helper.make_graph([
+            helper.make_node("Conv", ["x", "W"] + (["B"] if has_bias else []), ["y"]),
+            helper.make_node("BatchNormalization", ["y", "g", "b", "m", "v"], ["z"], **bn_attrs),
+        ], "g", [vi("x", TensorProto.FLOAT, [1, 3, 5, 5])], [vi("z", TensorProto.FLOAT, [1, 4, 4, 4])], inits)
+        m = helper.make_model(g, opset_imports=[helper.make_opsetid("", 18)], ir_version=9)
+        onnx.checker.check_model(m)
+        x = rng.normal(size=(1, 3, 5, 5)).astype(np.float32)
+        before = run(m, {"x": x})[0]
+        new = rw.rewrite(m, pattern_rewrite_rules=fb.rules)
+        after = run(new, {"x": x})[0]
+        err = float(np.abs(before - after).max())
+        if err > 1e-3:
+            print(f"BatchNormalization(Conv(x, W{', B' if has_bias else ''}); {bn_attrs}) -> {[n.op_type for n in new.graph.node]}: max |difference| = {err:.4f}")
+            bad += 1
+    return bad
+
+
+CASES["batchnorm"] = case_batchnorm
